@@ -56,7 +56,7 @@ def dom(c, p):
     """Build the abstract molecule for job params p."""
     return build_mol(c, p["n"], alphabet=tuple(p.get("alphabet", ("C",))), K_m=p.get("K_m", 2), K_r=p.get("K_r", 1),
                      pinned=unpin(p.get("pinned")), mass_lo=p.get("mass_lo", 1), rad_lo=p.get("rad_lo", 1),
-                     fixed_bonds=p.get("bonds"), label_atoms=p.get("label_atoms"), rad_hi=p.get("rad_hi"))
+                     fixed_bonds=p.get("bonds"), label_atoms=p.get("label_atoms"), rad_hi=p.get("rad_hi"), fixed_elements=p.get("elements"))
 
 
 def relist(c, mol, p):
@@ -65,6 +65,37 @@ def relist(c, mol, p):
         order = list(p["perm"])
         return order, None, ()
     return choose_relisting(c, mol, atom_moves=(mode in ("atoms", "both")), bond_moves=(mode in ("bonds", "both")))
+
+
+def scramble(c, g, name="lab"):
+    """Exchange two solver-chosen adjacent labels WITHOUT changing the node iteration order
+    (nx.relabel_nodes keeps the order): a description whose numbering differs from its listing."""
+    import networkx as nx
+    n = g.number_of_nodes()
+    if n < 2:
+        return g
+    t = c.choice(name, n - 1)
+    return nx.relabel_nodes(g, {t: t + 1, t + 1: t}, copy=True)
+
+
+def second_graph(c, mol, p):
+    """The second description of the molecule: (graph, note)."""
+    mode = p.get("relist", "atoms")
+    if mode == "labels":
+        g = scramble(c, graph_of(mol.listing()))
+        return g, ["labels", list(g.nodes)]
+    if mode == "keys":
+        # same listing order, but the declared indices of two solver-chosen adjacent positions are exchanged
+        numbering = list(range(mol.n))
+        if mol.n > 1:
+            t = c.choice("kt", mol.n - 1)
+            numbering[t], numbering[t + 1] = numbering[t + 1], numbering[t]
+        return graph_of(mol.listing(numbering=numbering)), ["keys", numbering]
+    if mode == "recanon":
+        # the canonical graph itself is a description of the molecule (its listing order differs from its numbering)
+        return canon(graph_of(mol.listing())), ["recanon"]
+    order, bo, flip = relist(c, mol, p)
+    return graph_of(mol.listing(order, bo, flip)), [order, bo, list(flip)]
 
 
 def shape_jobs(n, pin, base, name):
@@ -84,11 +115,11 @@ def shape_jobs(n, pin, base, name):
 def c01(**p):
     def body(c):
         mol = dom(c, p)
-        order, bo, flip = relist(c, mol, p)
+        g2, how = second_graph(c, mol, p)
         s1 = ser(canon(graph_of(mol.listing())))
-        s2 = ser(canon(graph_of(mol.listing(order, bo, flip))))
+        s2 = ser(canon(g2))
         c.note("mol", mol.describe())
-        c.note("relisting", [order, bo, list(flip)])
+        c.note("relisting", how)
         c.note("tucan", s1)
         c.note("tucan_relisted", s2)
         c.oblige("strings-equal", str_eq(s1, s2))
@@ -109,12 +140,12 @@ def edge_set(g):
 def c04(**p):
     def body(c):
         mol = dom(c, p)
-        order, bo, flip = relist(c, mol, p)
+        gb, how = second_graph(c, mol, p)
         g1 = canon(graph_of(mol.listing()))
-        g2 = canon(graph_of(mol.listing(order, bo, flip)))
+        g2 = canon(gb)
         n = mol.n
         c.note("mol", mol.describe())
-        c.note("relisting", [order, bo, list(flip)])
+        c.note("relisting", how)
         t1, t2 = node_table(g1), node_table(g2)
         c.note("canon1", [list(t1.get(k, ())) for k in range(n)])
         c.note("canon2", [list(t2.get(k, ())) for k in range(n)])
@@ -321,6 +352,8 @@ def c12(**p):
         mol = rich_mol(c, p)
         n = mol.n
         g = graph_of(mol.listing())
+        if p.get("scramble"):
+            g = scramble(c, g)
         before = snapshot(g)
         g2 = canon(g)
         c.note("mol", mol.describe())
@@ -379,12 +412,12 @@ def c13(**p):
         from ref.iso import automorphisms
         mol = tagged(dom(c, p))
         n = mol.n
-        order, bo, flip = relist(c, mol, p)
+        gb, how = second_graph(c, mol, p)
         g1 = canon(graph_of(mol.listing()))
-        g2 = canon(graph_of(mol.listing(order, bo, flip)))
+        g2 = canon(gb)
         cls1, cls2 = classes_by_tag(g1), classes_by_tag(g2)
         c.note("mol", mol.describe())
-        c.note("relisting", [order, bo, list(flip)])
+        c.note("relisting", how)
         c.note("classes", [cls1.get(a) for a in range(n)])
         c.note("classes_relisted", [cls2.get(a) for a in range(n)])
         c.oblige("classes-label-independent", cls1 == cls2)
@@ -471,8 +504,10 @@ def c16(**p):
         mol = rich_mol(c, p)
         n = mol.n
         g = graph_of(mol.listing())
+        if p.get("scramble"):
+            g = scramble(c, g)
         before = snapshot(g)
-        seed = 0.25
+        seed = p.get("seed", 0.25)
         stub = ShuffleStub(c, p.get("max_shuffles", 3))
         gu = t["gu"]
         real_random = gu.random
